@@ -122,7 +122,7 @@ var readerClauses = map[int]string{
 	15: "after NextReader/ReadMessage failed, a later call returned something else",
 	16: "ReadMessage reported a partial or wrong message as complete",
 	17: "messages remain undelivered after draining reads",
-	20: "NextReader/ReadMessage panicked before the documented threshold of 1000 failed calls",
+	24: "NextReader/ReadMessage panicked before the documented threshold of 1000 failed calls",
 	90: "frames written back by the reader are not well-formed",
 	96: "Spec inflate rejects a stream the generator considers valid (harness/spec bug)",
 	97: "generated stream is not conformant (harness bug)",
